@@ -571,7 +571,7 @@ def strategy(tier):
 
 
 def budget(tier):
-    return 400 if tier == "quick" else 6000
+    return 400 if tier == "quick" else 24000
 
 
 def explicit(tier, seed):
